@@ -325,9 +325,14 @@ def verify_unit(loader, contract, registry, timeout_ms=20000, max_paths=MAX_PATH
             else:
                 res.infeasible += 1
         except Unsupported as e:
+            # this path left the supported subset: the unit is demoted (not counted as proved), but the other paths
+            # are still explored -- an obligation refuted there is still a finding
             res.demoted = "%s: %s" % (type(e).__name__, e)
             res.obligations.extend(E.obligations)
-            break
+            res.unsupported_paths = getattr(res, "unsupported_paths", 0) + 1
+            if res.unsupported_paths > 40:
+                break
+            continue
         except (PyRaise, _Ret) as e:
             res.error = "uncaught interpreter control flow: %r" % (e,)
             break
